@@ -263,31 +263,11 @@ func BuildSelect(query *Query, slct *sqlparser.Select) error {
 }
 
 func BuildUnion(query *Query, expr *sqlparser.Union) error {
-	leftStatement := expr.Left.(*sqlparser.Select)
-	leftStatement.With = expr.With
-	rightStatement := expr.Right.(*sqlparser.Select)
-	rightStatement.With = expr.With
-	left, err := Prepare(query.data, leftStatement, query.options)
+	leftDataArray, err := ExecUnionBranch(query, expr.Left, expr.With)
 	if err != nil {
 		return err
 	}
-	leftData, err := left.execAndPostProcess()
-	if err != nil {
-		return err
-	}
-	right, err := Prepare(query.data, rightStatement, query.options)
-	if err != nil {
-		return err
-	}
-	rightData, err := right.execAndPostProcess()
-	if err != nil {
-		return err
-	}
-	leftDataArray, err := AsArray(leftData)
-	if err != nil {
-		return err
-	}
-	rightDataArray, err := AsArray(rightData)
+	rightDataArray, err := ExecUnionBranch(query, expr.Right, expr.With)
 	if err != nil {
 		return err
 	}
@@ -296,13 +276,43 @@ func BuildUnion(query *Query, expr *sqlparser.Union) error {
 	slice = append(slice, leftDataArray...)
 	slice = append(slice, rightDataArray...)
 	query.from = slice
+	// the rows of the branches are the rows of the union
 	query.selectDefinition = sqlparser.SelectExprs{}
-	query.selectDefinition.Exprs = make([]sqlparser.SelectExpr, 0)
+	query.selectDefinition.Exprs = []sqlparser.SelectExpr{&sqlparser.StarExpr{}}
+	// UNION removes duplicates, UNION ALL keeps them
+	query.distinct = expr.Distinct
 	err = BuildLimit(query, expr.Limit)
 	if err != nil {
 		return err
 	}
 	return nil
+}
+
+// Executes one branch of a union. A branch is a select statement or, for chains
+// of three or more branches, another union
+func ExecUnionBranch(query *Query, statement sqlparser.TableStatement, with *sqlparser.With) ([]any, error) {
+	switch statement.(type) {
+	case *sqlparser.Select, *sqlparser.Union:
+		{
+			statement.SetWith(with)
+		}
+	default:
+		{
+			return nil, UNSUPPORTED_CASE.Extend(fmt.Sprintf("%T is not supported in a union", statement))
+		}
+	}
+	branch, err := Prepare(query.data, statement, query.options)
+	if err != nil {
+		return nil, err
+	}
+	data, err := branch.execAndPostProcess()
+	if err != nil {
+		return nil, err
+	}
+	if data == nil {
+		return []any{}, nil
+	}
+	return AsArray(data)
 }
 
 func BuildCte(query *Query, expr *sqlparser.With) error {
@@ -1728,6 +1738,9 @@ func ExecHaving(query *Query, current Map, opts ...ExprOption) (bool, error) {
 }
 
 func IsSelectAllAggregate(query *Query) bool {
+	if len(query.selectDefinition.Exprs) == 0 {
+		return false
+	}
 	for _, slct := range query.selectDefinition.Exprs {
 		expr, ok := slct.(*sqlparser.AliasedExpr)
 		if !ok {
